@@ -8,6 +8,7 @@ use crate::engine::monitor;
 use crate::oracle::poker::Oracle;
 use std::sync::OnceLock;
 
+pub mod hands;
 pub mod c01;
 pub mod c02;
 pub mod c04;
